@@ -136,8 +136,21 @@ func drawOwCase(w *simrt.Tape) *owCase {
 		class := -1
 		mixedWidths := false
 		first := true
+		// a model may be confined to one later generation (it only appears downstream): its single
+		// batch then covers all of its rows
+		confined := -1
+		if c.G > 1 && w.Choose(6) == 5 {
+			confined = 1 + w.Choose(c.G-1)
+		}
 		for g := 0; g < c.G; g++ {
 			n := w.Choose(5) // 0..4 nodes: empty batches occur
+			if confined >= 0 {
+				if g == confined {
+					n = 1 + w.Choose(4)
+				} else {
+					n = 0
+				}
+			}
 			if w.Choose(16) == 15 {
 				n = 5 + w.Choose(8)
 			}
